@@ -647,6 +647,58 @@ func ruleCloseSafety(c *Ctx, rule string) {
 		}
 	}
 	c.floor(rule, n, 6, "close(ch) sites")
+	// several close sites of the same channel must be mutually exclusive: guarded by the same once-flag under the same lock
+	type siteInfo struct {
+		call ssa.CallInstruction
+		flag FieldRef
+		lock string
+		ok   bool
+	}
+	byChan := map[FieldRef][]siteInfo{}
+	for _, fn := range w.Funcs {
+		if isGenericTemplate(fn) {
+			continue
+		}
+		for _, call := range callsNamed(fn, "builtin.close") {
+			fr, _, isF := loadedField(call.Common().Args[0])
+			if !isF {
+				continue
+			}
+			si := siteInfo{call: call}
+			if nt := recvNamed(fn); nt != nil {
+				if fl, ok := c.findOnceFlag(call, nt); ok {
+					if locks := perStreamLocks(lf.MustAt(call), nt); len(locks) > 0 {
+						si.flag, si.lock, si.ok = fl, locks[0], true
+					}
+				}
+			}
+			dup := false
+			for _, o := range byChan[fr] {
+				if o.call.Pos() == call.Pos() {
+					dup = true // another instantiation of the same generic source
+				}
+			}
+			if !dup {
+				byChan[fr] = append(byChan[fr], si)
+			}
+		}
+	}
+	for fr, sites := range byChan {
+		if len(sites) < 2 {
+			continue
+		}
+		same := true
+		for _, s := range sites {
+			if !s.ok || s.flag != sites[0].flag || s.lock != sites[0].lock {
+				same = false
+			}
+		}
+		var where []string
+		for _, s := range sites {
+			where = append(where, w.Short(s.call.Parent())+" ("+w.At(s.call)+")")
+		}
+		c.check(same, rule, "close sites of "+fr.String()+" are mutually exclusive", w.At(sites[0].call), "all "+fmt.Sprint(len(sites))+" close sites test and set the same flag "+sites[0].flag.String()+" under "+sites[0].lock, "the channel "+fr.String()+" is closed at "+strings.Join(where, " and ")+" but these sites are not guarded by one common once-flag under one lock: when both run (e.g. a late frame after the stream finished) the second close panics with 'close of closed channel'")
+	}
 	// plain receiver hand-off protocol
 	r := c.receivers()
 	for _, fn := range r.pAccept {
